@@ -190,6 +190,9 @@ func (fc *ProtoForkChoice) ProcessAttestation(index ValidatorIndex, blockRoot Ro
 func (fc *ProtoForkChoice) CanonicalChain(anchorRoot Root, anchorSlot Slot) ([]ExtendedNodeRef, error) {
 	fc.mu.Lock()
 	defer fc.mu.Unlock()
+	if err := fc.updateVotesMaybe(); err != nil {
+		return nil, err
+	}
 	return fc.protoArray.CanonicalChain(anchorRoot, anchorSlot)
 }
 
@@ -214,6 +217,9 @@ func (fc *ProtoForkChoice) InSubtree(anchor Root, root Root) (unknown bool, inSu
 func (fc *ProtoForkChoice) Search(anchor NodeRef, parentRoot *Root, slot *Slot) (nonCanon []NodeRef, canon []NodeRef, err error) {
 	fc.mu.Lock()
 	defer fc.mu.Unlock()
+	if err := fc.updateVotesMaybe(); err != nil {
+		return nil, nil, err
+	}
 	return fc.protoArray.Search(anchor, parentRoot, slot)
 }
 
@@ -226,6 +232,9 @@ func (fc *ProtoForkChoice) ClosestToSlot(anchor Root, slot Slot) (ref NodeRef, e
 func (fc *ProtoForkChoice) CanonAtSlot(anchor Root, slot Slot, withBlock bool) (closest NodeRef, err error) {
 	fc.mu.Lock()
 	defer fc.mu.Unlock()
+	if err := fc.updateVotesMaybe(); err != nil {
+		return NodeRef{}, err
+	}
 	return fc.protoArray.CanonAtSlot(anchor, slot, withBlock)
 }
 
